@@ -190,6 +190,34 @@ async fn pmtiles_open_self_referential(_a: &[String]) -> Result<bool> {
 	Ok(false)
 }
 
+async fn versatiles_short_tile_index(a: &[String]) -> Result<bool> {
+	// args: n_index_entries first_offset — C19: looking up a tile in a container whose block's tile index is inconsistent
+	// (wrong number of entries, or offsets near 2^64) returns a value or an error, never panics
+	use versatiles_container::verif_hooks_versatiles::{BlockDefinition, BlockIndex, FileHeader, TileIndex};
+	let n: usize = arg(a, 0); let first_offset: u64 = arg(a, 1);
+	let mut file: Vec<u8> = vec![0u8; 66];
+	file.push(b'x');                                                     // one tile payload at offset 66
+	let mut ti = TileIndex::new_empty(n);
+	if n > 0 { ti.set(0, ByteRange::new(first_offset, 1)); }
+	let ti_blob = ti.as_brotli_blob()?;
+	let mut bd = BlockDefinition::new(&TileBBox::new(1, 0, 0, 1, 1)?);   // a block with 4 tiles
+	bd.set_tiles_range(ByteRange::new(66, 1));
+	bd.set_index_range(ByteRange::new(67, ti_blob.len()));
+	file.extend(ti_blob.as_slice());
+	let mut bi = BlockIndex::new_empty();
+	bi.add_block(bd);
+	let bi_blob = bi.as_brotli_blob()?;
+	let blocks_range = ByteRange::new(file.len() as u64, bi_blob.len());
+	file.extend(bi_blob.as_slice());
+	let mut h = FileHeader::new(&TileFormat::BIN, &TileCompression::Uncompressed, [1, 1], &GeoBBox(-180.0, -85.0, 180.0, 85.0))?;
+	h.blocks_range = blocks_range;
+	file[..66].copy_from_slice(h.to_blob()?.as_slice());
+	let reader = versatiles_container::VersaTilesReader::open_reader(Box::new(versatiles_core::io::DataReaderBlob::from(Blob::from(file)))).await?;
+	let r = reader.get_tile_data(&TileCoord3::new(0, 0, 1)?).await;
+	println!("get_tile_data -> {}", match &r { Ok(Some(b)) => format!("Ok(Some({} bytes))", b.len()), Ok(None) => "Ok(None)".into(), Err(e) => format!("Err({e})") });
+	Ok(false)
+}
+
 fn main() -> Result<()> {
 	let args: Vec<String> = std::env::args().skip(1).collect();
 	if args.is_empty() { eprintln!("usage: verif_replay <case> args…"); std::process::exit(2); }
@@ -203,6 +231,7 @@ fn main() -> Result<()> {
 			"block_definition_from_bytes" => block_definition_from_bytes(rest),
 			"vector_tile_dup_keys" => vector_tile_dup_keys(rest),
 			"pmtiles_open_self_referential" => rt.block_on(pmtiles_open_self_referential(rest)),
+			"versatiles_short_tile_index" => rt.block_on(versatiles_short_tile_index(rest)),
 			"svarint_roundtrip" => svarint_roundtrip(rest),
 			"pbf_length_prefix" => pbf_length_prefix(rest),
 			"vector_tile_from_bytes" => vector_tile_from_bytes(rest),
